@@ -1180,7 +1180,14 @@ def warm_up() -> None:
         return
     _WARM = True
     for i, fam in enumerate(["control", "faulty", "sdp_control", "sdp_faulty", "sdps", "control", "faulty"]):  # (not "props": its decodes are what a run must do itself)
-        execute(gen_plan(fam, i, random.Random(3000 + i), "quick"))
+        plan = gen_plan(fam, i, random.Random(3000 + i), "quick")
+        for k, o in enumerate(plan.get("ops", [])):
+            if o.get("op") in ("decode_property", "property_list"):
+                # never in the warm-up: what a decode for another family leaves behind in the process is exactly what a run
+                # must produce itself (a regression over the seeded changes showed the warm-up hiding C10-16 after the
+                # operation mix, and with it the warm-up plans, had changed)
+                plan["ops"][k] = {"op": "get_property", "tag": 1, "index": 0}
+        execute(plan)
     CLOCK.reset()
 
 
